@@ -108,3 +108,13 @@ Qed.
 Theorem header_cap_any : forall (ctx ev : Type) bb fb sn e1 e2 e3 (c : ctx) b m, List.length b = 65%nat -> Forall (fun x => x < 128) b ->
   tok_step ctx ev bb fb sn e1 e2 e3 c (b ++ m) = TDead ctx ev e1.
 Proof. intros. apply header_cap; assumption. Qed.
+
+(* the CLOSE clause: a CLOSE that arrives while the index phase of an OPEN is pending (and nothing is being discarded) is a protocol
+   error -- what lib/BananaRecv.v's CLOSE clause does *)
+Theorem tie_close_in_index_phase : forall io d, hd_close_fatal io d = io && (d =? 0).
+Proof. intros io d. unfold hd_close_fatal. destruct io; cbn [andb negb orb]; zb. Qed.
+
+(* the ABORT clause: an ABORT in the index phase of an OPEN counts that OPEN as discarded and ends the index phase -- what
+   lib/BananaRecv.v's ABORT clause does (handle_violation c (inOpen c) false, then inOpen := false) *)
+Theorem tie_abort_in_index_phase : hd_abort_in_index = true.
+Proof. reflexivity. Qed.
